@@ -37,6 +37,8 @@ def base(n, nan=False):
     df = c06.frame("str")
     if n == 5:
         df = df.iloc[FIVE].reset_index(drop=True)
+    if n == 6:
+        df = df.iloc[FIVE + [6]].reset_index(drop=True)
     if nan:  # one incomplete row (dropped by default): equivariance must hold for the retained rows
         df = df.copy()
         df.loc[2, "x"] = np.nan
@@ -44,9 +46,16 @@ def base(n, nan=False):
     return df
 
 
+_TIER = "quick"
+
+
 def units(tier, seed):
     fams = ["perm5", "cayley8", "index", "columns", "cayley8-nan", "index-nan"]
-    return [[{"formula": f, "family": fam}] for f in POOL for fam in fams]
+    pool = list(POOL)
+    if tier == "thorough":
+        fams += ["perm6"]
+        pool = list(dict.fromkeys(pool + [f for f in c06.pool("quick") if "lv" not in f or True]))
+    return [[{"formula": f, "family": fam, "tier": tier}] for f in pool for fam in fams]
 
 
 def expand(unit):
@@ -148,7 +157,7 @@ def check_case(case, acc):
 
     f, fam = case["formula"], case["family"]
     problems = []
-    n = 5 if fam == "perm5" else 8
+    n = 5 if fam == "perm5" else 6 if fam == "perm6" else 8
     nan = fam.endswith("-nan")
     fam = fam.replace("-nan", "")
     D = base(n, nan)
@@ -161,8 +170,11 @@ def check_case(case, acc):
         acc.violation("design-exists", exc_sig(e), case, f"{f!r} on the base frame raised {type(e).__name__}: {e}")
         return
     variants = []
-    if fam in ("perm5", "cayley8"):
-        perms = [p for p in itertools.permutations(range(5)) if p != tuple(range(5))] if fam == "perm5" else cayley(8, 2)
+    if fam in ("perm5", "perm6", "cayley8"):
+        if fam == "cayley8":
+            perms = cayley(8, 3 if case.get("tier") == "thorough" else 2)
+        else:
+            perms = [p for p in itertools.permutations(range(n)) if p != tuple(range(n))]
         for p in perms:
             variants.append((f"rows {list(p)}", D.iloc[list(p)].reset_index(drop=True), list(p), False))
     elif fam == "index":
